@@ -168,6 +168,18 @@ IntPoints(op, n) ==
                                  <<R2(-40, 1), R2(2, 1)>>, <<R2(-8, 1), R2(4, 1)>> >> ELSE <<>>)
   \o (IF op \in PowOps THEN << <<R2(2, 1), R2(3, 1)>>, <<R2(0, 1), R2(2, 1)>>, <<R2(3, 1), R2(0, 1)>> >> ELSE <<>>)
 
+\* IEEE special values as evaluation points (floating point and magic scalar types).  A coordinate
+\* <<k, 0>> is a token: 1 = +Inf, -1 = -Inf, 0 = NaN, 2 / -2 = the largest finite value of the type and its
+\* negative, 3 = the smallest positive value of the type; <<0, -1>> = negative zero.  Where the terms of the
+\* contract have no finite value at such a point the demanded relation is the property's own: every
+\* slot of the aliased receiver equals (same IEEE class, same number) that of the fresh receiver.
+SpecialVals == <<R2(-1, 0), R2(1, 0), R2(0, 0), R2(0, -1), R2(0, 1), R2(2, 0), R2(-2, 0), R2(3, 0)>>
+SpecialPoints(op) ==
+  IF op \in BinaryOps
+  THEN [k \in 1..(Len(SpecialVals) * Len(SpecialVals)) |->
+          <<SpecialVals[((k - 1) \div Len(SpecialVals)) + 1], SpecialVals[((k - 1) % Len(SpecialVals)) + 1]>>]
+  ELSE [k \in 1..Len(SpecialVals) |-> <<SpecialVals[k], R2(1, 2)>>]
+
 (* ---- what the contract demands ------------------------------------------- *)
 SMeaning(op, par, ea, eb) ==
   IF op \in BinaryOps THEN Meaning2(op, ea, eb)
@@ -199,7 +211,7 @@ SCase(op, par, n, roles, f, ks) ==
   IN [fam |-> "scalar", op |-> op, par |-> par, n |-> n, objs |-> objs,
       roles |-> [r |-> rr, a |-> ra, b |-> rb, t |-> rt], pat |-> PatternName(roles, f),
       cls |-> IF TempShared(roles, f) THEN "info" ELSE "req",
-      pts |-> Points(op, n), ipts |-> IntPoints(op, n), exp |-> SExpect(op, par, n, objs, rr, ra, rb)]
+      pts |-> Points(op, n), ipts |-> IntPoints(op, n), spts |-> SpecialPoints(op), exp |-> SExpect(op, par, n, objs, rr, ra, rb)]
 
 (* ---- groups: (operation, parameter, n, pattern) --------------------------- *)
 ScalarOps == UnaryOps \cup BinaryOps
